@@ -119,6 +119,27 @@ def run(tier):
         case, n = empty_case(fmts, arch)
         res = pmap.pmap(n, case, init_fn=mmd.init_worker, deadline_s=dl * 0.9)
         pmap.fold(rep, "empty-components-%s" % "+".join(f for f, _ in fmts), n, res, "%d documents in which one component (URL, alt, title, label, value, cell, term, fence, mark) is empty x %s x 5 extension sets" % (len(EMPTY), "/".join(f for f, _ in fmts)))
+    # localised strings (note titles, back links, quotes): every language x the constructs that print them
+    LANGS = ["en", "es", "de", "fr", "nl", "sv", "he"]
+    LOCDOC = b"Title: T\nLanguage: %s\n\n\"q\" 'r' text[^f] cite[#c] again[#c] gl[?g] [>ab] [p. 3][#c] [Not cited][#d]\n\n{{TOC}}\n\n# H\n\n![fig](i.png)\n\n[^f]: n\n[#c]: C\n[#d]: D\n[?g]: G\n[>ab]: AB\n"
+    def loc_case(idx):
+        li = idx % len(LANGS); fi = (idx // len(LANGS)) % 5; via_arg = idx // (len(LANGS) * 5)
+        fname, fmt = (TEXTUAL + ARCHIVES)[fi]; v = []
+        doc = (LOCDOC % LANGS[li].encode()) if not via_arg else LOCDOC.replace(b"Language: %s\n", b"")
+        case_d = dict(src=doc.decode("latin-1"), position="localised-strings", format=fname, language=LANGS[li])
+        data = mmd.convert_to_data(doc, mmd.EXT_DEFAULT, fmt, li if via_arg else 0, ASSETS)
+        members = [(fname, data)]
+        if fi >= len(TEXTUAL):
+            try:
+                z = zipfile.ZipFile(io.BytesIO(data)); members = [(nm, z.read(nm)) for nm in z.namelist() if nm.endswith((".xml", ".xhtml", ".opf", ".ncx")) or nm == "mapdata.xml"]
+            except Exception as e:
+                return (pmap.h64(doc), [("xml:archive-unreadable:" + fname, "cannot open %s archive: %s" % (fname, e), case_d)], dict(judged=1))
+        for nm, d in members:
+            err = xml_ok(d)
+            if err: v.append(("xml:not-well-formed:%s:localised-strings:%s" % (nm.split("/")[-1], classify(err)), "%s is not well-formed for language %s (%s)" % (nm, LANGS[li], err), case_d))
+        return (pmap.h64(doc + bytes([fi, li, via_arg])), v, dict(judged=len(members)))
+    res = pmap.pmap(len(LANGS) * 5 * 2, loc_case, init_fn=mmd.init_worker, deadline_s=dl * 0.9)
+    pmap.fold(rep, "localised-strings", len(LANGS) * 5 * 2, res, "a document with every construct that prints localised strings x 7 languages (metadata and language argument) x {opml, fodt, itmz, odt, epub}")
     rep.add_sample(dict(position="link-title", src=(POS[9][1] + b"\"&<" + POS[9][2]).decode("latin-1"), formats=["opml", "fodt", "odt", "epub", "itmz"]))
     rep.add_sample(dict(position="code-block", src=(POS[18][1] + b"<<}" + POS[18][2]).decode("latin-1")))
     return rep.finish()
